@@ -66,6 +66,13 @@ def process(tier, rng, cicada):
         args = [r.choice(["a", "b c", "", "x'y", "é", "-n", "1 2  3"]) for _ in range(k)]
         exp_argv = ["argv", "s.sh"] + [(args[j] if j < k else "") for j in range(3)] + [" ".join(args)]
         add("args%d" % i, {"s.sh": 'argv "$0" "$1" "${2}" "$3" "$@"\n'}, ["s.sh"] + args, {"argv": [exp_argv]})
+    # the same inside a function: the arguments of the CALL, empty strings included (`f a '' c`: $2 is empty, $3 is c)
+    for i in range(8 if tier == "quick" else 60):
+        k = r.below(6)
+        args = [r.choice(["a", "b c", "", "", "é", "-n", "1 2  3", "x"]) for _ in range(k)]
+        quoted = " ".join(("'%s'" % a) if r.below(2) else ('"%s"' % a) for a in args)
+        exp_argv = ["argv", "f-1"] + [(args[j] if j < k else "") for j in range(3)] + [" ".join(args)]
+        add("fargs%d" % i, {"s.sh": 'function f-1() {\n    argv "$0" "$1" "${2}" "$3" "$@"\n}\nf-1 %s\n' % quoted}, ["s.sh"], {"argv": [exp_argv]})
     # functions: both header spellings, names with - and _, arity
     add("func1", {"s.sh": 'function f-1() {\n    argv "$0" "$1" "$2" "$@"\n}\nfunction g_2 {\n    argv g "$1"\n}\nf-1 a "b c"\ng_2 z\nf-1\n'}, ["s.sh"],
         {"argv": [["argv", "f-1", "a", "b c", "a b c"], ["argv", "g", "z"], ["argv", "f-1", "", "", ""]]})
